@@ -188,8 +188,6 @@ def render_min(t, extra=None, _path=()):
         if True:
             lpar = ll < lv
             rpar = rl <= lv
-            if lv == 1 and ll == 1:
-                lpar = True     # one comparison per parenthesis-free region
             if t[3][0] == 'u' and lv > 1:
                 rpar = False    # a*-b, a--b : unary minus binds tightest
             if t[2][0] == 'u':
